@@ -410,7 +410,7 @@ impl Check for C17 {
             push(s.to_string(), "successful script".to_string(), &mut cases);
         }
         if thorough {
-            for (en, e) in EXPR_ERRORS.iter().step_by(2) {
+            for (en, e) in EXPR_ERRORS.iter() {
                 for (pn1, p1) in POSITIONS {
                     for (pn2, p2) in POSITIONS {
                         // nest position 2 (as a statement list) inside a function called from position 1
